@@ -125,3 +125,73 @@ end XPathV.Theorems.NonVacuity.C12
 section AxiomAudit
 open XPathV.Theorems.NonVacuity.C12
 end AxiomAudit
+
+/-! ## `Frag2`: a flat path whose predicate is outside `Frag`
+
+`/r/*[@x < @y]/@*` — the predicate compares two paths with `<` (`Frag2.cmpPath`; not in `Frag`, whose
+comparisons have a literal on one side); `/r[count(*) = 3]/*[@x < @y]/@*` adds a `count` predicate
+(`Frag2.countR`).  On `d0` only `b` has `@x` = 2 < 3 = `@y`, so both yield `b`'s two attributes, in
+document order. -/
+namespace XPathV.Theorems.NonVacuity.C12
+open XPathV XPathV.Model XPathV.Theorems.NonVacuity XPathV.PosSem
+open XPathV.PathSem XPathV.PredSem XPathV.PredSem2 XPathV.FlatFiltered XPathV.FlatFiltered2
+
+attribute [local instance] toyAlg
+
+/-- `@x < @y` -/
+def bLt : Ast := .oper "<" (.axis (atA "x") .none) (.axis (atA "y") .none)
+/-- `count(*) = 3` -/
+def bCnt3 : Ast := .oper "=" (.call "count" "" (.acons (.axis (chE "") .none) .anil)) (.num "3")
+/-- `/r/*[@x < @y]/@*` -/
+def pH : Ast := .axis (atA "") (.filter (.axis (chE "") (.axis (chE "r") (.root "/"))) bLt)
+/-- `/r[count(*) = 3]/*[@x < @y]/@*` -/
+def pK : Ast :=
+  .axis (atA "") (.filter (.axis (chE "") (.filter (.axis (chE "r") (.root "/")) bCnt3)) bLt)
+
+theorem pH_parsed : ParsesTo "/r/*[@x < @y]/@*" pH := ApiSem.parsesTo_eq (by decide +kernel)
+theorem pK_parsed : ParsesTo "/r[count(*) = 3]/*[@x < @y]/@*" pK := ApiSem.parsesTo_eq (by decide +kernel)
+
+theorem bLt_frag : Frag2 false bLt :=
+  .cmpPath _ _ _ (by decide) (.axis _ _ .none (by decide)) (.axis _ _ .none (by decide))
+theorem bCnt3_frag : Frag2 false bCnt3 :=
+  .countR _ _ _ _ (by decide) (.axis _ _ .none (by decide)) (.axis _ _ (by decide) .none)
+
+theorem pH_flatFrag2 : FlatFrag2 pH :=
+  .axis _ _ (by decide) (.filter _ _ (.axis _ _ (by decide) (.axis _ _ (by decide) (.root _))) bLt_frag)
+theorem pK_flatFrag2 : FlatFrag2 pK :=
+  .axis _ _ (by decide) (.filter _ _ (.axis _ _ (by decide)
+    (.filter _ _ (.axis _ _ (by decide) (.root _)) bCnt3_frag)) bLt_frag)
+
+/-- **`C12_flat_filtered_is_oracle_list_full`** on `/r/*[@x < @y]/@*` (`WF`, `nsIface`, `HashInj`,
+`Frag2 true`, `FlatAny`, `build = .ok`, `validRef` discharged): the engine's sequence is
+`[b/@x, b/@y]`, the oracle's list -/
+theorem C12_flat_filtered_is_oracle_list_full_instance : ∃ (o : BOut), ∃ l,
+    sel (F := Int) d0 {} o.q (.node 0) = .ok l ∧ refs l = [.attr 4 0, .attr 4 1] := by
+  obtain ⟨o, hb⟩ : ∃ o, build (fun _ => true) 100 true false pH {} {} = .ok o := exists_ok (by decide +kernel)
+  obtain ⟨l, ns, g, h1, _, _, h4, _, h6⟩ := Theorems.C12.C12_flat_filtered_is_oracle_list_full (F := Int) wf_d0 {}
+    rfl hashInj_d0 (fun _ => true) 100 pH pH_flatFrag2.frag2 pH_flatFrag2.flatAny {} o hb (.node 0) (by decide)
+  have e := value_of_eval h4 (v' := .nodes [.attr 4 0, .attr 4 1]) (by decide +kernel)
+  cases e
+  exact ⟨o, l, h1, h6⟩
+
+/-- … and on `/r[count(*) = 3]/*[@x < @y]/@*` (two predicates outside `Frag`, on two steps),
+through the `FlatFrag2` form of the statement -/
+theorem C12_flat_filtered_is_oracle_list_full_fragment_instance : ∃ (o : BOut), ∃ l,
+    sel (F := Int) d0 {} o.q (.node 0) = .ok l ∧ refs l = [.attr 4 0, .attr 4 1] := by
+  obtain ⟨o, hb⟩ : ∃ o, build (fun _ => true) 100 true false pK {} {} = .ok o := exists_ok (by decide +kernel)
+  obtain ⟨l, ns, g, h1, _, _, h4, _, h6⟩ := Theorems.C12.C12_flat_filtered_is_oracle_list_full_fragment (F := Int)
+    wf_d0 {} rfl hashInj_d0 (fun _ => true) 100 pK pK_flatFrag2 {} o hb (.node 0) (by decide)
+  have e := value_of_eval h4 (v' := .nodes [.attr 4 0, .attr 4 1]) (by decide +kernel)
+  cases e
+  exact ⟨o, l, h1, h6⟩
+
+/-- the predicate `@x < @y` is not in the old fragment: `Frag false` has no comparison of two paths -/
+theorem bLt_not_frag : ¬ Frag false bLt := by
+  intro h
+  generalize he : bLt = e at h
+  cases h
+  all_goals first
+    | (subst he; rename_i hp; cases hp)
+    | (simp [bLt] at he)
+
+end XPathV.Theorems.NonVacuity.C12
